@@ -78,6 +78,7 @@ type world struct {
 	dupsCompared   int
 	overlaps       int
 	quiescentExact int
+	modelVersion   int // bumped whenever a reply that can change client state is applied
 	prevCnt        [][2]int
 }
 
@@ -274,6 +275,7 @@ type delivery struct {
 	stale       bool // a later request of the same sequence chain had started before this one ended
 	ioStart     ioExpect
 	holderStart string
+	verStart    int // model version when the delivery started
 	clEpoch     int
 	clBusy      bool
 }
@@ -326,6 +328,8 @@ func (w *world) lossSeam(label, fault string, allowed bool) bool {
 // request or reply followed by retransmission of the identical request.
 func (ln *lane) send(req *request) {
 	w := ln.w
+	ln.cur = req
+	defer func() { ln.cur = nil }()
 	for attempt := 0; ; attempt++ {
 		if w.lossSeam("send", "request-lost", attempt < 2) {
 			continue
@@ -419,10 +423,16 @@ func (w *world) copiesPending() bool {
 			if ln.retx {
 				return true
 			}
+			// An NFSv4.0 OPEN that may still be retransmitted: evaluated
+			// again after its (unconfirmed or idle) open-owner was
+			// collected it would be a new request.
+			if ln.cur != nil && ln.cur.cl.minor == 0 && ln.cur.kind == kOpen {
+				return true
+			}
 		}
 	}
 	for _, req := range w.reqs {
-		if req.inflight > 0 && (len(req.deliveries) > 1) {
+		if req.queued > 0 || (req.inflight > 0 && len(req.deliveries) > 1) {
 			return true
 		}
 	}
